@@ -190,7 +190,12 @@ fn one(w: &mut World, i: usize, st: &Step, c: &mut Counters) -> Result<Option<(u
                 Some(d) => {
                     bump(c, "outcome:mismatch");
                     let label = first_diff_label(&ro, &mo);
-                    Err(Violation { props: props(), step: i, step_kind: st.kind().into(), class: class_of(st, &label), detail: d })
+                    let mut p = props();
+                    // "reports malformed input as None or Err" (C15): an accept/reject disagreement of a decoder fed untrusted bytes
+                    if untrusted(st) && matches!(label.as_str(), "some" | "ok" | "key_ok" | "sig_ok") && !p.contains(&"C15".to_string()) {
+                        p.push("C15".into());
+                    }
+                    Err(Violation { props: p, step: i, step_kind: st.kind().into(), class: class_of(st, &label), detail: d })
                 }
             }
         }
